@@ -105,7 +105,7 @@ func (e *Engine) verifyFunc(fn *ssa.Function, cfg SolverCfg) *FuncResult {
 
 func (e *Engine) verifyFuncMode(fn *ssa.Function, cfg SolverCfg, mode string) *FuncResult {
 	t0 := time.Now()
-	res := &FuncResult{Fn: fn.String(), Key: e.fnKey(fn)}
+	res := &FuncResult{Fn: fn.String(), Key: fn.String()}
 	dropped := map[string]bool{}
 	var vc *VC
 	var err error
